@@ -27,12 +27,25 @@ var BranchTuples = []model.Branch{
 // ExtLists are the extension lists of the filesystem workloads.
 var ExtLists = [][]string{
 	nil,
-	{".go"},
-	{".go", "Makefile"},
-	{"go"},
-	{"o", ".go"},
-	{"Makefile", ".md"},
-	{""},
+	{".gz"},
+	{".tar.gz"}, // an extension that itself contains a dot
+	{".gz", "b"},
+	{"gz"},       // bare suffix
+	{"z", ".gz"}, // overlapping suffixes
+	{".go", "Makefile", ".md"},
+	{""}, // empty string: every leaf
+}
+
+// ExtAlphabet is the 2-letter alphabet of the exhaustive filesystem workloads.
+var ExtAlphabet = []string{"a.tar.gz", "b"}
+
+// allExt lists every index of ExtLists.
+func allExt() []int {
+	out := make([]int, len(ExtLists))
+	for i := range out {
+		out[i] = i
+	}
+	return out
 }
 
 func atoi(s string) int {
